@@ -242,7 +242,11 @@ def op_getitem(c, o):
     elif k == "rlmask":
         res = r[W(mk_rl("b1", idx[1], o.get("maskvia", "from_array")))]
     elif k == "slice":
-        res = r[W(py_sel(idx))]
+        sl = py_sel(idx)
+        if o.get("npbounds"):                    # the same bounds as numpy integers of the narrowest dtype that holds them
+            nb = lambda v: v if v is None else (np.int8(v) if -128 <= v <= 127 else np.int16(v) if -32768 <= v <= 32767 else np.int64(v))
+            sl = slice(nb(sl.start), nb(sl.stop), nb(sl.step))
+        res = r[W(sl)]
     elif k == "windows":
         res = r[np.array(idx[1], dtype=int):np.array(idx[2], dtype=int)]
     elif k == "all":
